@@ -247,16 +247,27 @@ func intrinsicTable() map[string]intrinsic {
 		delete(ex.replaced, ex.argStr(a[0]))
 		return nil
 	}
-	t[vsName("UFBool")] = func(ex *Exec, fn *ssa.Function, a []Value) Value {
-		name := ex.argStr(a[0])
-		args := ex.variadicTerms(a[1])
-		return ex.ctx.UF(name, 0, args...)
+	uf := func(w int) intrinsic {
+		return func(ex *Exec, fn *ssa.Function, a []Value) Value {
+			name := ex.argStr(a[0])
+			args := ex.variadicTerms(a[1])
+			allConst := true
+			for _, x := range args {
+				if !x.IsConst() {
+					allConst = false
+				}
+			}
+			if allConst {
+				// an application to concrete arguments is just one more named unknown
+				return ex.input(ufAppName(name, args, nil), w)
+			}
+			t := ex.ctx.UF(name, w, args...)
+			ex.ufApps = append(ex.ufApps, ufApp{name: name, args: args, app: t})
+			return t
+		}
 	}
-	t[vsName("UFU64")] = func(ex *Exec, fn *ssa.Function, a []Value) Value {
-		name := ex.argStr(a[0])
-		args := ex.variadicTerms(a[1])
-		return ex.ctx.UF(name, 64, args...)
-	}
+	t[vsName("UFBool")] = uf(0)
+	t[vsName("UFU64")] = uf(64)
 	t[vsName("Fail")] = func(ex *Exec, fn *ssa.Function, a []Value) Value {
 		ex.Assert(ex.argStr(a[0]), ex.ctx.False)
 		return nil
@@ -714,4 +725,27 @@ func addSync(t map[string]intrinsic) {
 		smap(ex, a).Entries = nil
 		return nil
 	}
+}
+
+type ufApp struct {
+	name string
+	args []*smt.Term
+	app  *smt.Term
+}
+
+func ufAppName(name string, args []*smt.Term, vals []uint64) string {
+	var sb strings.Builder
+	sb.WriteString(name + "(")
+	for i, a := range args {
+		if i > 0 {
+			sb.WriteByte(',')
+		}
+		v := a.Val
+		if vals != nil {
+			v = vals[i]
+		}
+		sb.WriteString(fmt.Sprintf("%d", v))
+	}
+	sb.WriteString(")")
+	return sb.String()
 }
